@@ -348,14 +348,15 @@ PAR_BITS = ([1, 0, 1, 0, 0, 0], [0, 1, 0, 1, 0, 0, 1, 0, 1, 1],
             [1, 1, 0, 1, 1, 0, 1, 1, 1, 0, 1], [0, 0, 1, 0, 0, 0, 0, 1, 1])
 
 
-def strategy_body(n, strategy, bits):
+def strategy_body(n, strategy, bits, scen=('a', 'core', 'req')):
     """The write sites of the real strategies: run with a fixed oracle that
     accepts candidates keeping '<', crash before FS step n."""
     from ddsmt import nodeio
     from vlib.stubs.strat import Decider
     from harness import strat_common as SC
     d = Decider(10 ** 6, replay=bits)
-    env = SC.setup(d, strategy, 1, 6, 'a', 'core', oracle='req', maxwrites=60)
+    env = SC.setup(d, strategy, 1, 6, scen[0], scen[1], oracle=scen[2],
+                   maxwrites=60)
     # undo the write recorder: the real writer runs on the fake FS
     real_write = None
     for (mod, name), val in list(env.__dict__.get('_saved', {}).items()):
@@ -387,6 +388,25 @@ def strategy_body(n, strategy, bits):
         state['writing'] = False
         observer(fs)
 
+    # what the strategy adopts as its current input, recorded independently
+    # of the writes: ddmin through TaskGenerator.update, hierarchical through
+    # the re-duplication of the accepted candidate
+    from ddsmt import strategy_ddmin as _sd, nodes as _nodes
+    adopted = []
+    real_update = _sd.TaskGenerator.update
+    real_redup = _nodes.reduplicate
+
+    def update(self, exprs):
+        adopted.append(nodeio.write_smtlib_to_str(exprs))
+        return real_update(self, exprs)
+
+    def redup(exprs):
+        if strategy == 'hierarchical':
+            adopted.append(nodeio.write_smtlib_to_str(exprs))
+        return real_redup(exprs)
+
+    _sd.TaskGenerator.update = update
+    _nodes.reduplicate = redup
     nodeio.write_smtlib_to_file = write
     saved = {'open': getattr(nodeio, 'open', None),
              'os': getattr(nodeio, 'os', None)}
@@ -401,6 +421,8 @@ def strategy_body(n, strategy, bits):
             return 'skip'
     finally:
         nodeio.write_smtlib_to_file = recorded
+        _sd.TaskGenerator.update = real_update
+        _nodes.reduplicate = real_redup
         env.restore()
         for k, v in saved.items():
             if v is None:
@@ -410,6 +432,17 @@ def strategy_body(n, strategy, bits):
                 setattr(nodeio, k, v)
     if state['bad']:
         return state['bad']
+    if adopted and not state['writing']:
+        # between rewrites (in particular at the end and at an interrupt) the
+        # file holds the input adopted last - or, if the interrupt fell
+        # between adoption and rewrite, the one before
+        cur = fs.files.get(OUT)
+        ok = adopted[-2:] if fs.crashed else adopted[-1:]
+        if cur not in ok:
+            return (f'the last adopted input is {adopted[-1]!r} but the '
+                    f'output file holds {cur!r}'
+                    + (f' (interrupt before step {n})' if fs.crashed else
+                       ' at the end of the run'))
     if fs.crashed and OUT in fs.files and len(accepted_texts) >= 1:
         if not (len(accepted_texts) == 1 and state['writing']):
             if fs.files[OUT] not in accepted_texts[-2:]:
@@ -581,12 +614,15 @@ def make_main(strategy, bits):
 SC_REAL_WRITE = [None]
 
 
-def make_strategy(strategy, bits):
+SHAPE_SCEN = ('e', 'consts', 'shape')   # accepted steps keep the size
+
+
+def make_strategy(strategy, bits, scen=('a', 'core', 'req')):
     def h(n: int):
         from crosshair.tracers import NoTracing
         assume(0 <= n <= 400)
         with NoTracing():
-            r = strategy_body(n, strategy, bits)
+            r = strategy_body(n, strategy, bits, scen)
         assume(r != 'skip')
         if r:
             raise Violation(r)
@@ -642,6 +678,12 @@ def partitions(tier):
                           'fn': make_strategy(st, bits), 'setup': _setup,
                           'budget_s': 160,
                           'bounds': {'strategy': st, 'oracle_bits': bits}})
+    for st in ('hierarchical', 'ddmin'):
+        parts.append({'name': f'{st}shape', 'fn': make_strategy(
+            st, [0, 0, 0, 0, 0, 0], SHAPE_SCEN), 'setup': _setup,
+            'budget_s': 160,
+            'bounds': {'strategy': st, 'scenario': 'accepted simplifications '
+                       'that keep the number of s-expressions'}})
     for st in ('hierarchical', 'ddmin', 'hybrid'):
         for k, bits in enumerate(main_bits(tier)):
             parts.append({'name': f'main_{st}' + (f'_{k}' if k else ''),
@@ -758,6 +800,10 @@ def replay(part, cex):
             f = part.split('_')
             k = int(f[2]) if len(f) > 2 else 0
             return main_body(cex['n'], f[1], main_bits(tier)[k])
+        if part.endswith('shape'):
+            r = strategy_body(cex['n'], part[:-5], [0, 0, 0, 0, 0, 0],
+                              SHAPE_SCEN)
+            return None if r == 'skip' else r
         st, k = part.split('_')
         bits = strat_bits(tier)[int(k)]
         r = strategy_body(cex['n'], st, bits)
